@@ -178,6 +178,7 @@ package mysql
 //@   props C12 C14
 //@   safety
 //@   opt cutoffsets yes
+//@   opt useonly base.LengthEncodedInt bounds,on-error
 //@   at call base.LengthEncodedInt#1 : assert 0 <= pos && pos < len(packet.data)
 //@   ensures (err == nil) <==> (field != nil)
 
